@@ -268,8 +268,31 @@ func (w *Worker) external(fn *ssa.Function, args []Value) (Value, bool) {
 	case "sync":
 		switch name {
 		case "(*sync.Pool).Get":
-			w.stats.Stubs["sync.Pool.Get always calls New (pool reuse not modelled)"]++
 			p := args[0].(Ptr)
+			if w.cfg.PoolReuse {
+				// precise pool: Put keeps the object, Get hands out the most
+				// recently put one (maximal sharing); what it contains is
+				// whatever its previous user left, and with pool_havoc every
+				// numeric cell of it is replaced by an arbitrary value (any
+				// earlier history of the pool)
+				w.stats.Stubs["sync.Pool: objects are reused (Get returns the most recently Put object); contents arbitrary when pool_havoc is set"]++
+				if w.pools == nil {
+					w.pools = map[*Value][]poolItem{}
+				}
+				if l := w.pools[p.Slot]; len(l) > 0 {
+					it := l[len(l)-1]
+					w.pools[p.Slot] = l[:len(l)-1]
+					if w.sched != nil && it.vc != nil {
+						w.sched.cur.vc.join(it.vc)
+					}
+					if w.cfg.PoolHavoc {
+						w.havoc(it.v, 0)
+					}
+					return it.v, true
+				}
+			} else {
+				w.stats.Stubs["sync.Pool.Get always calls New (pool reuse not modelled)"]++
+			}
 			st := (*p.Slot).(StructV)
 			// field "New" is the last field
 			newFn := st[len(st)-1]
@@ -279,8 +302,25 @@ func (w *Worker) external(fn *ssa.Function, args []Value) (Value, bool) {
 			if newFn == nil {
 				return IfaceV{}, true
 			}
-			return w.callValue(newFn, nil), true
+			v := w.callValue(newFn, nil)
+			if w.cfg.PoolReuse && w.cfg.PoolHavoc {
+				w.havoc(v, 0)
+			}
+			return v, true
 		case "(*sync.Pool).Put":
+			if w.cfg.PoolReuse {
+				p := args[0].(Ptr)
+				if w.pools == nil {
+					w.pools = map[*Value][]poolItem{}
+				}
+				it := poolItem{v: args[1]}
+				if w.sched != nil {
+					c := w.sched.cur
+					it.vc = c.vc.copy()
+					c.vc[c.id]++
+				}
+				w.pools[p.Slot] = append(w.pools[p.Slot], it)
+			}
 			return nil, true
 		case "(*sync.Mutex).Lock", "(*sync.Mutex).Unlock", "(*sync.RWMutex).Lock", "(*sync.RWMutex).Unlock",
 			"(*sync.RWMutex).RLock", "(*sync.RWMutex).RUnlock", "(*sync.WaitGroup).Add", "(*sync.WaitGroup).Done", "(*sync.WaitGroup).Wait":
@@ -1191,4 +1231,56 @@ func (w *Worker) reflectShim(fn *ssa.Function, name string, args []Value) (Value
 		return nil, true
 	}
 	return nil, false
+}
+
+
+type poolItem struct {
+	v  Value
+	vc vclock
+}
+
+// havoc replaces every numeric leaf reachable from v (through pointers,
+// structs, arrays and the full capacity of slices) by a fresh unconstrained
+// value: the object may have been used by anything before.
+func (w *Worker) havoc(v Value, depth int) {
+	if depth > 6 {
+		return
+	}
+	switch x := v.(type) {
+	case IfaceV:
+		w.havoc(x.V, depth+1)
+	case Ptr:
+		if x.Slot != nil {
+			w.havocSlot(x.Slot, depth+1)
+		}
+	case SliceV:
+		if x.B == nil || x.SOff != nil {
+			return
+		}
+		for i := x.Off; i < x.Off+x.Cap && i < len(x.B.Cells); i++ {
+			w.havocSlot(&x.B.Cells[i], depth+1)
+		}
+	}
+}
+
+func (w *Worker) havocSlot(slot *Value, depth int) {
+	switch x := (*slot).(type) {
+	case *Term:
+		switch x.Sort.K {
+		case SReal, SFP:
+			*slot = w.tt.Fresh("pool", x.Sort)
+		}
+	case ComplexV:
+		*slot = ComplexV{w.tt.Fresh("pool", x.Re.Sort), w.tt.Fresh("pool", x.Im.Sort)}
+	case StructV:
+		for i := range x {
+			w.havocSlot(&x[i], depth+1)
+		}
+	case ArrayV:
+		for i := range x {
+			w.havocSlot(&x[i], depth+1)
+		}
+	default:
+		w.havoc(*slot, depth)
+	}
 }
